@@ -18,7 +18,7 @@ func runC05(ctx *Ctx) *Report {
 		for _, t := range f {
 			size += t.Size()
 		}
-		doc := spell(f, coveringSpellings()[i%24])
+		doc := spell(f, coveringSpellings()[i%len(coveringSpellings())])
 		fm := formats[i%len(formats)]
 		for k := -1; k <= size; k++ {
 			c := newCase("walk")
